@@ -114,6 +114,13 @@ class FileWalker:
 
     def run(self):
         tree = self.src.tree
+        for n in ast.walk(tree):
+            if isinstance(n, ast.ImportFrom) and (n.module or '').split('.')[0] == 'logging':
+                self.fail(n, '`from logging import ...`: logging calls could no longer be recognised')
+            if isinstance(n, ast.Import):
+                for a in n.names:
+                    if a.name.split('.')[0] == 'logging' and a.asname not in (None, 'logging'):
+                        self.fail(n, 'the logging module is imported under another name')
         if self.fname == 'ikesa.py':
             self.pin_wrappers()
         self.scope(tree.body, '<module>', [])
